@@ -575,6 +575,9 @@ func mutations(rng *rand.Rand, text string, full bool) []string {
 		if c == '9' && i > 0 && b[i-1] >= '0' && b[i-1] <= '9' && i+1 < len(b) && b[i+1] >= '0' && b[i+1] <= '9' {
 			continue // do not build very large declared counts: an allocation is not a hang
 		}
+		if full && c == '\r' && i%6 != 0 {
+			continue // a lone CR makes two lexers exit the process (an explicit error): sampled, each costs a driver restart
+		}
 		x := append([]byte{}, b...)
 		x[i] = c
 		add(x)
